@@ -188,6 +188,10 @@ class Gen:
         if kind == "fortuple":
             x, y = rng.sample(NAMES, 2)
             self.mark_int(x)
+            if rng.random() < 0.3:
+                # for x, *y in ...
+                self.mark_other(y)
+                return ["for", ["t", [x, ["*", y]]], self.block(depth + 1, True), []]
             self.mark_int(y)
             return ["for", ["t", [x, y]], self.block(depth + 1, True), []]
         if kind == "while":
